@@ -310,10 +310,28 @@ pub fn oracle<E: Engine>(_ctx: &RunCtx, spec: &FsSpec, log: &mut CaseLog) -> Res
     }
     let perts = perturbations(&cfg, rounds, &spec.base.ctx, &t.promises, spec.rep, with_proof);
     let mut done = 0u64;
+    // Are the compressed copies what this verifier absorbs? Replace one by the encoding of another point: if no challenge
+    // moves, the verifier works from the points (the copies are an unused cache) and rewriting a copy is not a change of any
+    // absorbed datum; if the challenges move, every rewriting of a copy has to move them.
+    let consults = |edit: CompEdit| -> Result<bool, String> {
+        let mut ps = ps0.clone();
+        ps.apply(&StMut::CompressedCopy(edit));
+        Ok(match ps.statement(t.seed.filter(|_| ps.commitments.len() == 1)) {
+            Ok(st) => {
+                let got = verifier_challenges::<E>(&pre, &st, &proof, &ps.ctx, pre_counts)?;
+                got.len() != base.len() || got.iter().zip(base.iter()).any(|(a, b)| a != b)
+            },
+            Err(_) => true,
+        })
+    };
+    let consults_commitment_copies = consults(CompEdit::Commitment { j: 0, how: CompHow::Fresh(spec.rep ^ 0x9a9a) })?;
+    let consults_generator_copies = pre.is_empty() && consults(CompEdit::H(CompHow::Fresh(spec.rep ^ 0x8b8b)))?;
     for p in &perts {
         let mut ps = ps0.clone();
-        if !pre.is_empty() && matches!(&p.smut, Some(StMut::CompressedCopy(CompEdit::H(_))) | Some(StMut::CompressedCopy(CompEdit::G { .. }))) {
-            continue;
+        match &p.smut {
+            Some(StMut::CompressedCopy(CompEdit::H(_))) | Some(StMut::CompressedCopy(CompEdit::G { .. })) if !consults_generator_copies => continue,
+            Some(StMut::CompressedCopy(CompEdit::Commitment { .. })) | Some(StMut::CompressedCopy(CompEdit::List(_))) if !consults_commitment_copies => continue,
+            _ => {},
         }
         if let Some(m) = &p.smut {
             if matches!(ps.apply(m), Applied::Noop) {
